@@ -6,7 +6,7 @@ B == INSTANCE BearerDefs
 
 VARIABLE l
 MInit == l = 1 /\ MarkInit
-Case(e) == [hdr |-> e.c.hdr, ver |-> e.c.ver, req |-> AsSet(e.c.req), granted |-> AsSet(e.c.granted), exp |-> e.c.exp,
+Case(e) == [hdr |-> e.c.hdr, ver |-> e.c.ver, req |-> AsSet(e.c.req), granted |-> AsSet(e.c.granted), dup |-> e.c.dup, exp |-> e.c.exp,
             skew |-> e.c.skew, allow |-> e.c.allow, url |-> e.c.url, opts |-> e.c.opts]
 Out(e) == [status |-> e.o.status, ran |-> e.o.ran, sameInfo |-> e.o.sameInfo, chal |-> e.o.chal,
            chalUrl |-> e.o.chalUrl, chalScope |-> e.o.chalScope]
